@@ -215,7 +215,7 @@ pub fn with_attrs(mut cfg: Cfg, ask: &[&str], bid: &[&str]) -> Cfg {
 
 /// S1: legacy orders stored under un-hyphenated ids, plus L requests that address them
 pub fn with_legacy_seed(mut s: Scenario) -> Scenario {
-    let aid = unhyphen(ID_A2);
+    let aid = legacy_ask_key();
     let bid = unhyphen(ID_B2);
     let inc = s.cfg.increment;
     let size = 2 * inc;
@@ -253,12 +253,12 @@ fn legacy_spelling_matches(s: &mut Scenario) {
     let inc = s.cfg.increment;
     for pr in s.menu.prices.clone() {
         for b in 0..s.menu.bid_slots.max(1) {
-            s.l.push(Act::new(&exec, vec![], Req::Match { ask_id: ID_A2.into(), bid_id: BID_IDS[b].into(), price: pr.to_string(), size: inc }));
+            s.l.push(Act::new(&exec, vec![], Req::Match { ask_id: ID_LEGACY_ASK.into(), bid_id: BID_IDS[b].into(), price: pr.to_string(), size: inc }));
         }
         for a in 0..s.menu.ask_slots.max(1) {
             s.l.push(Act::new(&exec, vec![], Req::Match { ask_id: ASK_IDS[a].into(), bid_id: ID_B2.into(), price: pr.to_string(), size: inc }));
         }
-        s.l.push(Act::new(&exec, vec![], Req::Match { ask_id: ID_A2.into(), bid_id: ID_B2.into(), price: pr.to_string(), size: inc }));
+        s.l.push(Act::new(&exec, vec![], Req::Match { ask_id: ID_LEGACY_ASK.into(), bid_id: ID_B2.into(), price: pr.to_string(), size: inc }));
     }
 }
 
@@ -278,11 +278,13 @@ pub fn with_old_format_seed(mut s: Scenario, version: &str) -> Scenario {
     let fee = fee_due(s.cfg.bid_fee.as_ref().map(|f| f.0.as_str()), total);
     let held_after = if fee > 0 { Rat::new((total - q1) as i128, total as i128).unwrap().mul(Rat::int(fee).unwrap()).unwrap().round_half_away().unwrap() } else { 0 };
     let ev_fee = if fee > 0 { Some(fee - held_after) } else { None };
+    let held_after2 = if fee > 0 { Rat::new((total - 2 * q1) as i128, total as i128).unwrap().mul(Rat::int(fee).unwrap()).unwrap().round_half_away().unwrap() } else { 0 };
+    let ev_fee2 = if fee > 0 { Some(held_after - held_after2) } else { None };
     let seller = s.cfg.roles.get("seller2").to_string();
     let buyer2 = s.cfg.roles.get("buyer2").to_string();
     let buyer1 = s.cfg.roles.get("buyer1").to_string();
     let exec = s.cfg.roles.get("exec").to_string();
-    let aid = unhyphen(ID_A2);
+    let aid = legacy_ask_key();
     let bid = unhyphen(ID_B2);
     let feev = if fee > 0 { json!({"denom": "q1", "amount": fee.to_string()}) } else { serde_json::Value::Null };
     let ask = json!({"id": aid, "owner": seller, "class": "Basic", "base": s.cfg.base, "quote": "q1", "price": price, "size": (2 * inc).to_string()});
@@ -291,7 +293,7 @@ pub fn with_old_format_seed(mut s: Scenario, version: &str) -> Scenario {
             "quote": {"denom": "q1", "amount": total.to_string()}})
     };
     let b_legacy = v2(&bid, &buyer2, vec![ev_reject(inc, q1, ev_fee)]);
-    let b_canon = v2(ID_B3, &buyer1, vec![ev_fill(inc, q1, ev_fee.filter(|f| *f > 0), price)]);
+    let b_canon = v2(ID_B3, &buyer1, vec![ev_fill(inc, q1, ev_fee.filter(|f| *f > 0), price), ev_reject(inc, q1, ev_fee2)]);
     s.seed.push((crate::refmodel::ask_key(&aid), ask.to_string().into_bytes()));
     s.seed.push((crate::refmodel::bid_key(&bid), b_legacy.to_string().into_bytes()));
     s.seed.push((crate::refmodel::bid_key(ID_B3), b_canon.to_string().into_bytes()));
@@ -337,6 +339,7 @@ fn ledger_scenarios(tier: Tier, extra_probes: &dyn Fn(&Cfg, &Menu) -> Vec<Act>) 
         menu.modifies = fee_account_swap(&cfg);
         let mut p = extra_probes(&cfg, &menu);
         p.extend(probes::match_respell(&alphabet_l(&cfg, &menu)));
+        p.extend(probes::misc(&cfg, &alphabet_l(&cfg, &menu)));
         if !menu.quotes.is_empty() {
             // several quote denominations: bids whose fee coin is off (in particular: names the other quote)
             p.extend(probes::fee_creates(&cfg, &menu));
@@ -744,6 +747,7 @@ pub fn plan(prop: &str, tier: Tier) -> Plan {
                 let mut cfg = Cfg::new(0, 2, ("0.25", "0.25"), "R0");
                 cfg.approvers = vec![];
                 mk("B11/P1/F1/R0/no-approvers", cfg, menu_p1(1, 1), &mut v);
+                mk("B11/base-also-convertible", overlap(Cfg::new(0, 2, ("0.25", "0.25"), "R0")), Menu { prices: vec!["2"], ..menu_p1(1, 1) }, &mut v);
                 // three lots: partial rejects leaving one third / two thirds
                 mk("B11/P1/three-lots", Cfg::new(0, 2, ("0.25", "0.25"), "R0"), Menu { prices: vec!["2"], sizes: vec![6], match_sizes: vec![2, 6], reject_sizes: vec![2, 4], ..menu_p1(1, 1) }, &mut v);
                 mk("B11/P1/F1/R0/mid-history-migrations", Cfg::new(0, 2, ("0.25", "0.25"), "R0"), Menu { migrates: mid_history_migrations(), ..menu_p1(1, 1) }, &mut v);
@@ -796,7 +800,8 @@ pub fn plan(prop: &str, tier: Tier) -> Plan {
                         menu.sizes = vec![1, 2];
                         menu.match_sizes = vec![1, 2];
                         // deviant creates: if one is wrongly admitted, exploration continues from it
-                        let p = if c == 'r' || a == 'r' { probes::creates(&cfg, &menu, 1) } else { vec![] };
+                        let mut p = if c == 'r' || a == 'r' { probes::creates(&cfg, &menu, 1) } else { vec![] };
+                        p.extend(probes::reversals(&cfg, &menu));
                         v.push(scen(&format!("B11/P0/F1/{spec}"), cfg, menu, p));
                     }
                 }
